@@ -484,19 +484,19 @@ def loop_is_sync_mem_addr(blk):
 # ---------------------------------------------------------------------------------------
 
 def _with_site_timeout(fn):
-    import time
-    remaining = signal.getitimer(signal.ITIMER_REAL)[0]
-    t0 = time.monotonic()       # read only to restore the outer budget, never to decide
-    signal.setitimer(signal.ITIMER_REAL, SITE_TIMEOUT_S)
+    """A call that burns more than SITE_TIMEOUT_S of this process's CPU time is a hang. CPU
+    time (ITIMER_PROF), not wall time: a loaded machine stretches wall time, not CPU time, and
+    these calls normally cost milliseconds. (The run's wall-clock limit stays in force.)"""
+    signal.signal(signal.SIGPROF, common.alarm_handler)
+    signal.setitimer(signal.ITIMER_PROF, SITE_TIMEOUT_S)
     try:
         return fn()
     except common.RunTimeout:
+        if signal.getitimer(signal.ITIMER_PROF)[0] > 0:
+            raise           # the run's wall-clock alarm, not ours
         raise SiteTimeout()
     finally:
-        if remaining:
-            signal.setitimer(signal.ITIMER_REAL, max(1.0, remaining - (time.monotonic() - t0)))
-        else:
-            signal.setitimer(signal.ITIMER_REAL, 0)
+        signal.setitimer(signal.ITIMER_PROF, 0)
 
 
 def judge(blk, want_compiled):
